@@ -162,6 +162,8 @@ def has(spec, types):
 
 
 def run(res, replay=None):
+    # structural tie of the epoch machinery of phasegen/demography.py (generator, get_epochs, discrete _broadcast / _apply): translate the CURRENT source and re-check proofs/GenDemographyEquiv.v
+    import translate_step; (res.proof is not None) and translate_step.run(res.proof, pid=res.pid, tie='demography')
     # structural tie of the configuration classes incl. class Epoch (its copies, zero-filled rates, __eq__ / __hash__): translate the CURRENT source and re-check proofs/GenConfigsEquiv.v
     import translate_step; (res.proof is not None) and translate_step.run(res.proof, pid=res.pid, tie='configs')
     rng = random.Random(res.seed)
